@@ -30,7 +30,11 @@ THEOREMS = ["C18_segments_tile", "C18_segments_cover_exactly_once",
             "C18_node_segments_tile_after_any_history", "C18_energy_density_after_any_history",
             "C18_integrals_after_any_history_partial", "C18_polarisation_is_normalised",
             "C18_constant_bin_power_is_integral_of_density", "C18_spectrum_after_any_history",
-            "C18_double_evaluator_at_identity_is_the_model"]
+            "C18_double_evaluator_at_identity_is_the_model", "C18_shared_profile_nodes_agree"]
+# coq/Properties/C18_Real.v: the conjunction of C18_normal_density_integrates_real, C18_normal_density_tail_real,
+# C18_bivariate_cross_section_real, C18_beam_cross_section_real, C18_trivariate_volume_real (one Print Assumptions instead of five:
+# each costs about 8 s through Interval)
+THEOREMS_REAL = ["C18_integrals_over_the_reals"]
 
 KINDS = ["KUniform", "KBiv", "KTri", "KBeam"]
 FIELDS = ["Fed", "Fpe", "Fpl", "Fsx", "Fsy", "Fsz", "Fmz", "Fwz", "Fsw", "Fwl", "Frad", "Flen"]
@@ -376,10 +380,18 @@ def run_profile_case(L, case, rng, c, ctx, stats):
                 if op[0] == "same":
                     v = float(getattr(obj, ATTR[f])) if f in KIND_FIELDS[kind] else 1.5
                     form = None
+                elif op[0] == "copy":                 # the current value of ANOTHER attribute
+                    v = float(getattr(obj, ATTR[op[2]])) if op[2] in KIND_FIELDS[kind] else 1.5
+                    form = None
                 else:
                     v, form = float(op[2]), (op[3] if len(op) > 3 else None)
                 rop = ("set", f, v)
                 setattr(obj, ATTR[f], A.wrap(v, form))
+                got = float(getattr(obj, ATTR[f]))
+                if got != v and not (got != got and v != v) and not step_fails:
+                    step_fails.append({"key": "c18:setter-ignored:%s.%s" % (CLASSNAME[kind], ATTR[f]),
+                                       "claim": "%s: `obj.%s = %r` was accepted without an exception but the property reports %r afterwards"
+                                                % (CLASSNAME[kind], ATTR[f], v, got), "case": dict(case, ops=list(resolved) + [rop])})
             res.append(0)
         except (ValueError, AttributeError, ZeroDivisionError, TypeError) as e:
             res.append(err_code(e))
@@ -484,6 +496,11 @@ def run_spectrum_case(L, case, rng, ctx, stats):
             v = int(v) if name == "bins" else float(v)
             rop = (name, v)
             setattr(obj, SNAMES[name], A.wrap(v, form) if form else v)
+            got = getattr(obj, SNAMES[name])
+            if float(got) != float(v) and not step_fails:
+                step_fails.append({"key": "c18:setter-ignored:%s.%s" % (kind, SNAMES[name]),
+                                   "claim": "%s: `obj.%s = %r` was accepted without an exception but the property reports %r afterwards"
+                                            % (kind, SNAMES[name], v, got), "case": dict(case, ops=list(resolved) + [rop])})
             res.append(0)
         except (ValueError, AttributeError, TypeError) as e:
             res.append(err_code(e))
@@ -495,6 +512,90 @@ def run_spectrum_case(L, case, rng, ctx, stats):
     obs["res"] = res
     records.append((dict(case, ops=resolved), obs))
     return records, obj, step_fails
+
+
+def gen_nodes_case(rng, kind):
+    """several Laser nodes share one profile: profile calls, further nodes attaching, nodes getting another profile"""
+    cs = gen_profile_case(rng, kind, False, forced_op=("pol", (0.0, 1.0, 0.0)))
+    ops, n_extra = [], 0
+    for _ in range(rng.randint(3, 8)):
+        t = rng.random()
+        if t < 0.3:
+            ops.append(("node",))
+            n_extra += 1
+        elif t < 0.4 and n_extra:
+            ops.append(("replace", rng.randrange(n_extra)))
+            n_extra -= 1
+        elif t < 0.8:
+            r, L, _ = gen_radius_length(rng, False)
+            ops.append(("op", rng.choice([("set", "Frad", r), ("set", "Flen", L), ("set", "Flen", -L), ("set", "Frad", 0.0)])))
+        else:
+            f = rng.choice(KIND_FIELDS[kind])
+            ops.append(("op", rng.choice([("set", f, gen_value(rng, f, False)), ("attach",), ("pol", gen_vec(rng))])))
+    return {"type": "nodes", "kind": kind, "args": cs["args"], "pol": cs["pol"], "ops": ops, "audit": "shared-profile-nodes"}
+
+
+def run_nodes_case(L, case, rng, ctx, stats):
+    from raysect.optical import World, Vector3D
+    from cherab.core.laser import Laser
+    kind = case["kind"]
+    ctx.crumb({"case": case})
+    obj = make_profile(L, kind, case["args"], case["pol"])
+    first = Laser(parent=World())
+    first.laser_profile = obj
+    extra, res, fails = [], [], []
+    for op in case["ops"]:
+        try:
+            if op[0] == "node":
+                la = Laser(parent=World())
+                la.laser_profile = obj
+                extra.append(la)
+            elif op[0] == "replace":
+                la = extra.pop(op[1])
+                la.laser_profile = L.UniformEnergyDensity(1.0, 0.7, 0.1)      # this node stops listening to obj
+            else:
+                o = op[1]
+                if o[0] == "pol":
+                    obj.set_polarization(Vector3D(*o[1]))
+                elif o[0] == "attach":
+                    first.laser_profile = obj
+                else:
+                    setattr(obj, ATTR[o[1]], o[2])
+            res.append(0)
+        except (ValueError, AttributeError, ZeroDivisionError) as e:
+            res.append(err_code(e))
+        # every step, on the implementation: every listening node holds what a fresh object generates
+        want = S.cyl_data(make_profile(L, kind, dict(case["args"], **{f: float(getattr(obj, ATTR[f])) for f in KIND_FIELDS[kind]}),
+                                       (0.0, 1.0, 0.0)).generate_geometry())
+        stats["laser_routes"] += 1
+        for la in [first] + extra:
+            if S.cyl_data(la.get_geometry()) != want and not fails:
+                fails.append({"key": "c18:shared-profile-node", "claim": "%s shared by %d Laser nodes: after %r a listening node does not hold the "
+                                                                         "segments of a fresh object" % (CLASSNAME[kind], 1 + len(extra), op),
+                              "case": case, "got": S.cyl_data(la.get_geometry())[:5], "want": want[:5]})
+    nodes = []
+    for la in [first] + extra:
+        g = la.get_geometry()
+        n = len(g)
+        idx = sorted(set([0, n - 1, rng.randrange(n)])) if n else []
+        nodes.append((n, [(i, float(g[i].transform[2, 3]), float(g[i].height)) for i in idx]))
+    return {"res": res, "nodes": nodes}, fails
+
+
+def mop_lit(op):
+    if op[0] == "node":
+        return "MAttachNode"
+    if op[0] == "replace":
+        return "MReplaceNode %d" % op[1]
+    return "MOp (%s)" % pop_lit(op[1])
+
+
+def nodes_term(case, obs):
+    a = case["args"]
+    args = "(mkA (mkV %s) %s)" % (" ".join(qlit(a[f]) for f in FIELDS), vec_lit(case["pol"]))
+    return "check_nodes cC %s %s %s %s %s" % (
+        case["kind"], args, blist(mop_lit(o) for o in case["ops"]), zl(obs["res"]),
+        blist("(%s%%Z, %s)" % (zlit(n), blist("(%s%%Z, (%s, %s))" % (zlit(i), qlit(o), qlit(h)) for i, o, h in smp)) for n, smp in obs["nodes"]))
 
 
 # ---------------------------------------------------------------------------------------------
@@ -565,7 +666,7 @@ def spectrum_term(case, obs):
         blist("(%s, %s, %s, %s)" % tuple(qlit(v) for v in e) for e in obs["evals"])) + tail
 
 
-CODE_TEXT = {"profile": {9: "segments against the computation in doubles (exact)", 1: "constructor accepted/rejected differently", 2: "result (ok / ValueError / AttributeError / ZeroDivisionError) of a call",
+CODE_TEXT = {"nodes": {1: "constructor", 2: "result of a call", 3: "segments held by a listening Laser node"}, "profile": {9: "segments against the computation in doubles (exact)", 1: "constructor accepted/rejected differently", 2: "result (ok / ValueError / AttributeError / ZeroDivisionError) of a call",
                          3: "reported parameters", 4: "harness constant sqrt((2 pi)^3)", 5: "energy density at a probe point",
                          6: "polarisation", 7: "cylinder radius", 8: "segments held by the Laser node"},
              "spectrum": {10: "delta / wavelengths / constant-spectrum density against the computation in doubles (exact)",
@@ -604,6 +705,12 @@ def run(ctx):
         "(math.exp / math.erf at the double argument, the argument itself validated in Coq against the model's exact argument to 2^-40)",
         "raysect: Constant3D, scalar * Function3D, Vector3D.normalise, Cylinder, translate, Node parenting; Notifier of cherab.core.utility",
         "SPEED_OF_LIGHT is read from cherab/core/utility/constants.pyx by a one-line fail-closed regex",
+        "axioms (only under the C18_*_real theorems of coq/Properties/C18_Real.v, named by Print Assumptions; that file is compiled by coqc on every run but, "
+        "unlike Properties/C18.v, not re-checked by coqchk in the thorough tier: re-checking the closure of Interval takes more than 40 minutes): the standard library's classical real numbers "
+        "(ClassicalDedekindReals.sig_forall_dec, ClassicalDedekindReals.sig_not_dec, Classical_Prop.classic, "
+        "FunctionalExtensionality.functional_extensionality_dep) and the primitive 63-bit integers with their specification "
+        "(PrimInt63.*, Uint63.*_spec) that Interval's certified quadrature computes with; libraries Coquelicot 3 and Interval 4; "
+        "every other C18 theorem is closed under the global context",
     ]
     ctx.assumptions += [
         "integrals: the cross-section / volume integral statements are proved as algebra (the energy density is E/(c tau) times a product "
@@ -613,9 +720,27 @@ def run(ctx):
         "setter histories: values rejected by GaussianBeamAxisymmetric.stddev_waist / laser_wavelength (<= 0) are excluded from the "
         "history theorem (the object keeps the rejected value; recorded as C18_beam_rejected_setter_leaves_stale_parameter)",
         "the per-bin power array (_power) has no Python accessor; it is observed as power_spectral_density * delta_wavelength",
+        "generator exclusion (documented, out of scope of the property): None is never handed to set_polarization, to the polarization "
+        "argument of a constructor or to laser.laser_profile -- on the unchanged tree these calls end in SIGSEGV (typed Cython arguments "
+        "admit None); nan / inf parameters (accepted silently by the setters) and laser_radius so small that length // (2 radius) "
+        "exceeds about 1e6 segments are not generated either",
+        "real-number theorems: biv_evalR / beam_evalR / tri_evalR are the expression trees of the Q model transcribed over R by hand "
+        "(no formal Q -> R bridge); the integrals are over the box of +-40 sigma, the tails are bounded pointwise (density <= e^-800 of "
+        "its maximum), the improper integral over the whole plane / space is not formalised",
     ]
     ctx.rebuild()
     ctx.proofs("Properties.C18", THEOREMS, extra_modules=("Model.C18_Check", "Proofs.C18_Float"))
+    # the real-number property file: built and its assumptions re-checked on every run like the other one; the independent
+    # checker coqchk (thorough tier) is run on Properties.C18 only, re-checking the closure of Interval takes more than 40 minutes
+    old = os.environ.get("VERIF_NO_COQCHK")
+    os.environ["VERIF_NO_COQCHK"] = "1"
+    try:
+        ctx.proofs("Properties.C18_Real", THEOREMS_REAL)
+    finally:
+        if old is None:
+            os.environ.pop("VERIF_NO_COQCHK", None)
+        else:
+            os.environ["VERIF_NO_COQCHK"] = old
 
     import cherab
     assert list(cherab.__path__) == [REPO + "/cherab"], cherab.__path__
@@ -632,9 +757,11 @@ def run(ctx):
             for kw, f, dv in sg:
                 if f != "pol":
                     A.DEFAULTS[f] = dv
-        pth = ctx.write_gen("Policy.v", T.coq_text(policy, scripts))
+        spol, sacc = T.translate_spectrum(REPO)
+        pth = ctx.write_gen("Policy.v", T.coq_text(policy, scripts, spol, sacc))
         ok, out = coqc(pth, timeout=600)
-        ctx.obligation("Gen tie lemma policy_ok (setter / constructor policy of profile.pyx = tables of the model)", "tie", ok, out)
+        ctx.obligation("Gen tie lemmas policy_ok + spolicy_ok (setter / constructor / accessor policy of profile.pyx and of both "
+                       "laserspectrum.pyx = tables the model executes)", "tie", ok, out)
         if not ok:
             ctx.log("policy tie FAILED: " + out[-800:])
     except T.TranslationError as e:
@@ -657,15 +784,15 @@ def run(ctx):
             cs["ops"] = [(op[0], v)]
             cases.append(cs)
     n_forced = len(cases)
-    n_prof = 92 if quick else 2000
-    n_spec = 92 if quick else 2200
+    n_prof = 56 if quick else 2000
+    n_spec = 56 if quick else 2200
     for i in range(n_prof):
         cases.append(gen_profile_case(rng, KINDS[i % 4], exact=(i % 3 == 0)))
     for i in range(n_spec):
         cases.append(gen_spectrum_case(rng, "SGauss" if i % 5 < 3 else "SConst", exact=(i % 3 == 0), quick=quick))
     # random histories get an observation in the middle as well (same live object observed twice)
     for cs in cases[n_forced:]:
-        if len(cs["ops"]) >= 2 and rng.random() < 0.3:
+        if len(cs["ops"]) >= 2 and rng.random() < (0.2 if quick else 0.3):
             cs["mid"] = [rng.randint(1, len(cs["ops"]) - 1)]
     # classes added by the blind-spot audit (harness/c18_audit.py), regular part of both tiers
     me = sys.modules[__name__]
@@ -673,13 +800,21 @@ def run(ctx):
         cases += A.profile_cases(me, rng, kind, 2 if quick else 30, quick)
     for kind in ("SConst", "SGauss"):
         cases += A.spectrum_cases(me, rng, kind, 3 if quick else 45, quick)
+    for kind in KINDS:
+        cases += [gen_nodes_case(rng, kind) for _ in range(3 if quick else 40)]
 
     # ---- run the implementation --------------------------------------------------------------------
     stats = {"fresh_vs_mutated": 0, "quadrature": 0, "tiling": 0, "spectrum_bins": 0, "spectrum_sum_to_one": 0,
              "skipped_invalid_state": 0, "const_edge_cases": 0, "mid_history_observations": 0, "per_step_fresh_checks": 0,
              "nonfinite_observations_skipped": 0, "type_rejections": 0, "laser_routes": 0, "direct_bin_calls": 0}
     terms, recs, objs, dropped, fails = [], [], [], 0, []
+    node_terms = []
     for case in cases:
+        if case["type"] == "nodes":
+            nobs, sf = run_nodes_case(L, case, rng, ctx, stats)
+            fails += sf
+            node_terms.append((nodes_term(case, nobs), case, nobs))
+            continue
         if case["type"] == "profile":
             records, obj, laser, sf = run_profile_case(L, case, rng, c, ctx, stats)
             mk = profile_term
@@ -702,7 +837,10 @@ def run(ctx):
                 continue
             recs.append((cv, obs, oi))
     cases = [o[0] for o in objs]
-    ctx.log("implementation run on %d objects, %d observations" % (len(objs), len(terms)))
+    for t, cs_, ob_ in node_terms:          # shared-profile cases: compared in Coq like the others, no per-object search
+        terms.append(t)
+        recs.append((cs_, ob_, None))
+    ctx.log("implementation run on %d objects, %d observations" % (len(objs) + len(node_terms), len(terms)))
 
     # ---- correspondence in Coq ---------------------------------------------------------------------
     s2pi3 = math.sqrt((2 * math.pi) ** 3)
@@ -732,7 +870,7 @@ def run(ctx):
     ctx.log("correspondence: %d observations of %d objects in %d files, %d disagree" % (len(terms), len(objs), len(files), len(diffs)))
 
     # ---- failing-input search: the property itself on the real implementation ------------------------
-    diff_idx = {recs[i][2] for i, _ in diffs}
+    diff_idx = {recs[i][2] for i, _ in diffs if recs[i][2] is not None}
     order = sorted(diff_idx) + [i for i in range(len(objs)) if i not in diff_idx]
     heavy_budget = 30 if quick else 300
     for i in order:
